@@ -50,6 +50,10 @@ def self_writers(repo, mod, cls):
 
 
 def run(repo, res):
+    from . import rowspace
+
+    res.rule("R04.5", "the moments written to metadata belong to the node whose posterior row they were computed from: anything computed over whole grid rows is assigned to nodes only through the grid's own nonfixed_nodes order, never through a mask / arange (ascending-id order)")
+    rowspace.run(repo, res, "R04.5")
     res.rule("R04.1", "single source: the values written as mn/vr metadata and the values returned by node_posteriors()/mutation_posteriors() are pure copies of node_moments()/mutation_moments() (variational) -- through Results by field position and through get_modified_ts -> set_time_metadata with no arithmetic in between; every Results(...) argument comes from the producer matching the field at that position")
     res.rule("R04.2", "typestate of the fit object: no state-changing method of the fit object is called after the first moment extraction in run()")
     res.rule("R04.3", "inside_outside: standardize < force_probability_space(LIN) < to_probabilities < mean_var on the posterior grid and nothing mutating afterwards; to_probabilities divides each row by its sum under a non-negativity assertion; sample rows get (input time, 0)")
@@ -140,7 +144,7 @@ def run(repo, res):
     res.require(ok, "R04.4", "core.set_time_metadata returns before any table effect when the variance is None", "the first statement is not `if ... or var is None: return`", repo.loc(outer))
 
 
-VARIANTS = [
+VARIANTS = [dict(v, rule="R04.5") for v in __import__("sa.rules.rowspace", fromlist=["VARIANTS"]).VARIANTS] + [
     dict(name="metadata-from-other-moments", mod="core", expect="fire", rule="R04.1", old="        node_mn, node_va = fit_obj.node_moments()\n        mutation_mn, mutation_va = fit_obj.mutation_moments()", new="        node_mn, node_va = fit_obj.node_moments()\n        node_va = node_va * 1.0\n        mutation_mn, mutation_va = fit_obj.mutation_moments()"),
     dict(name="results-fields-swapped", mod="core", expect="fire", rule="R04.1", old="        return Results(\n            node_mn,\n            node_va,\n            mutation_mn,\n            mutation_va,", new="        return Results(\n            node_mn,\n            node_va,\n            mutation_va,\n            mutation_mn,"),
     dict(name="mutation-metadata-from-node-moments", mod="core", expect="fire", rule="R04.1", old="            mutations, mut_mean_t, mut_var_t, schemas.default_mutation_schema", new="            mutations, mut_mean_t, node_var_t[: len(mut_mean_t)], schemas.default_mutation_schema"),
